@@ -70,24 +70,75 @@ inductive FrameOK (nodes : Array ParseNode) : Option Nat → Option Nat → Nat 
       nodes[g]? = some G → G.definition.isGroupLike = true → priority G.definition = some pg → G.right = some re →
       FrameOK nodes (some g) (some g) (g + 1) re
 
-/-- **frame-local invariant, node part**: the nodes `base ..` form the tree `E` (root `re`) hanging below `p`
-    (`p = none`: top level; `p = some g`: the open bracket `g = base - 1`); `ug` is `under_group` -/
+/-- `l` is strictly increasing with all elements in `[a, b)` (the in-order index list of a frame's tree: node ids come in
+    token order; ids of unlinked nodes may be missing) -/
+def SortedIn (a b : Nat) (l : List Nat) : Prop := l.Pairwise (· < ·) ∧ ∀ j ∈ l, a ≤ j ∧ j < b
+
+theorem SortedIn.nodup {a b : Nat} {l : List Nat} (h : SortedIn a b l) : l.Nodup :=
+  h.1.imp (fun hlt => Nat.ne_of_lt hlt)
+
+theorem SortedIn.length_le {a b : Nat} : ∀ {l : List Nat}, SortedIn a b l → l.length + a ≤ b ∨ l = []
+  | [], _ => Or.inr rfl
+  | x :: l, h => by
+    left
+    have hx := h.2 x (List.mem_cons_self ..)
+    have htail : SortedIn (x + 1) b l := by
+      refine ⟨(List.pairwise_cons.mp h.1).2, fun j hj => ⟨?_, (h.2 j (List.mem_cons_of_mem _ hj)).2⟩⟩
+      exact (List.pairwise_cons.mp h.1).1 j hj
+    rcases htail.length_le with h' | h'
+    · simp only [List.length_cons]; omega
+    · subst h'; simp only [List.length_cons, List.length_nil]; omega
+
+theorem SortedIn.length_le' {a b : Nat} {l : List Nat} (h : SortedIn a b l) (hab : a ≤ b) : l.length + a ≤ b := by
+  rcases h.length_le with h' | h'
+  · exact h'
+  · subst h'; simpa using hab
+
+theorem SortedIn.mono {a b a' b' : Nat} {l : List Nat} (h : SortedIn a b l) (ha : a' ≤ a) (hb : b ≤ b') :
+    SortedIn a' b' l :=
+  ⟨h.1, fun j hj => ⟨Nat.le_trans ha (h.2 j hj).1, Nat.lt_of_lt_of_le (h.2 j hj).2 hb⟩⟩
+
+theorem sortedIn_range' (a k b : Nat) (h : a + k ≤ b) : SortedIn a b (List.range' a k) := by
+  refine ⟨List.pairwise_lt_range', fun j hj => ?_⟩
+  rw [List.mem_range'_1] at hj
+  omega
+
+/-- `l1` below `n`, then `n`, then `l2` above `n` -/
+theorem SortedIn.append_cons {a n b : Nat} {l1 l2 : List Nat} (h1 : SortedIn a n l1) (h2 : SortedIn (n + 1) b l2)
+    (han : a ≤ n) (hnb : n < b) : SortedIn a b (l1 ++ n :: l2) := by
+  refine ⟨?_, ?_⟩
+  · rw [List.pairwise_append]
+    refine ⟨h1.1, ?_, ?_⟩
+    · rw [List.pairwise_cons]
+      exact ⟨fun j hj => by have := (h2.2 j hj).1; omega, h2.1⟩
+    · intro x hx y hy
+      have hxn := (h1.2 x hx).2
+      rcases List.mem_cons.mp hy with e | e
+      · omega
+      · have := (h2.2 y e).1; omega
+  · intro j hj
+    rcases List.mem_append.mp hj with e | e
+    · have := h1.2 j e; omega
+    · rcases List.mem_cons.mp e with e | e
+      · omega
+      · have := h2.2 j e; omega
+
+/-- **frame-local invariant, node part**: the nodes of the frame (ids from `base`) form the tree `E` (root `re`) hanging
+    below `p` (`p = none`: top level; `p = some g`: the open bracket `g = base - 1`); `ug` is `under_group` -/
 structure NInv (nodes : Array ParseNode) (ug p : Option Nat) (base : Nat) (E : Tree) (re : Nat) : Prop where
   tree : IsTreeAt nodes p (some re) E
-  inord : E.inorder = List.range' base (nodes.size - base)
+  inord : SortedIn base nodes.size E.inorder
+  first : base ∈ E.inorder
   pos : base < nodes.size
   frame : FrameOK nodes ug p base re
   prios : AllPrio nodes
 
 theorem NInv.mem {nodes : Array ParseNode} {ug p : Option Nat} {base : Nat} {E : Tree} {re : Nat}
-    (h : NInv nodes ug p base E re) (j : Nat) : j ∈ E.inorder ↔ base ≤ j ∧ j < nodes.size := by
-  rw [h.inord, List.mem_range'_1]
-  have := h.pos
-  constructor
-  · rintro ⟨h1, h2⟩; exact ⟨h1, by omega⟩
-  · rintro ⟨h1, h2⟩; exact ⟨h1, by omega⟩
+    (h : NInv nodes ug p base E re) (j : Nat) (hj : j ∈ E.inorder) : base ≤ j ∧ j < nodes.size :=
+  h.inord.2 j hj
 
 theorem SInv.toN {st : PState} {T : Tree} {rt : Nat} (h : SInv st T rt) : NInv st.nodes none none 0 T rt :=
-  ⟨h.tree, by rw [h.inord, List.range_eq_range']; simp, h.pos, .top rt, h.prios⟩
+  ⟨h.tree, by rw [h.inord, List.range_eq_range']; exact sortedIn_range' 0 _ _ (by omega),
+    by rw [h.inord]; exact List.mem_range.mpr h.pos, h.pos, .top rt, h.prios⟩
 
 end Garnish.Spec
